@@ -60,6 +60,23 @@ func fixLens(b []byte, locs []ieLoc, pos, delta int) {
 	}
 }
 
+// len16 picks a wrong value for a 16-bit length field whose correct value is
+// actual: small values, values around the correct one, and values near the top
+// and the middle of the 16-bit range (where additions of header sizes wrap).
+func len16(r *Rng, actual int) uint16 {
+	switch r.Intn(6) {
+	case 0:
+		return uint16(r.Intn(21))
+	case 1:
+		return uint16(actual - 6 + r.Intn(13))
+	case 2, 3:
+		return uint16(0xffff - r.Intn(24))
+	case 4:
+		return uint16(0x7ff0 + r.Intn(0x20))
+	}
+	return uint16(r.Intn(0x10000))
+}
+
 // Mutate returns a hostile variant of a valid PFCP datagram and a short
 // description of what was done.
 func Mutate(r *Rng, valid []byte) ([]byte, string) {
@@ -105,8 +122,7 @@ func Mutate(r *Rng, valid []byte) ([]byte, string) {
 		b[1] = byte(r.U64())
 		return b, "message type randomised"
 	case 7:
-		v := []uint16{0, 1, 3, 4, 7, 8, 11, 12, 0xffff, uint16(len(b)), uint16(len(b) - 3), uint16(len(b) - 5)}[r.Intn(12)]
-		binary.BigEndian.PutUint16(b[2:4], v)
+		binary.BigEndian.PutUint16(b[2:4], len16(r, len(b)-4))
 		return b, "message length field set to a wrong value"
 	case 8:
 		if b[0]&1 != 0 && len(b) >= 12 {
@@ -119,11 +135,7 @@ func Mutate(r *Rng, valid []byte) ([]byte, string) {
 		if !ok {
 			return b, "unchanged"
 		}
-		v := []int{0, 1, l.end - l.hdr - 1, l.end - l.hdr + 1, l.end - l.hdr + 4, 0xffff, len(b), r.Intn(0x10000)}[r.Intn(8)]
-		if v < 0 {
-			v = 0
-		}
-		binary.BigEndian.PutUint16(b[l.off+2:], uint16(v))
+		binary.BigEndian.PutUint16(b[l.off+2:], len16(r, l.end-l.hdr))
 		return b, "IE length field set to a wrong value"
 	case 11:
 		l, ok := pick()
